@@ -482,6 +482,16 @@ func init() {
 		bs := in.bytesOf(args[2])
 		return in.crc(prev, bs)
 	}
+	reg(rtPkg+".TempDir", func(in *Interp, fr *frame, fn *ssa.Function, args []Value) Value {
+		return in.mkStr("/veriftmp")
+	})
+	// io.Copy / io.CopyN through the Read and Write methods of the operands
+	reg("io.Copy", func(in *Interp, fr *frame, fn *ssa.Function, args []Value) Value {
+		return in.ioCopy(fr, args[0], args[1], -1)
+	})
+	reg("io.CopyN", func(in *Interp, fr *frame, fn *ssa.Function, args []Value) Value {
+		return in.ioCopy(fr, args[0], args[1], in.concreteInt(args[2], "CopyN n"))
+	})
 	reg(rtPkg+".CRC32C", func(in *Interp, fr *frame, fn *ssa.Function, args []Value) Value {
 		return in.crc(args[0].(*T), in.bytesOf(args[1]))
 	})
@@ -656,4 +666,49 @@ func (in *Interp) formatInt(t *T, signed bool) Value {
 		digits = append([]*T{tb.bytes['-']}, digits...)
 	}
 	return Str{b: digits}
+}
+
+func (in *Interp) ioCopy(fr *frame, dst, src Value, limit int) Value {
+	d, s := dst.(Iface), src.(Iface)
+	if d.t == nil || s.t == nil {
+		in.unsupported("io.Copy with nil operand")
+	}
+	rd := in.prog.LookupMethod(s.t, nil, "Read")
+	wr := in.prog.LookupMethod(d.t, nil, "Write")
+	if rd == nil || wr == nil {
+		in.unsupported("io.Copy operands lack Read/Write")
+	}
+	total := 0
+	for iter := 0; iter < 100000; iter++ {
+		sz := 4096
+		if limit >= 0 && limit-total < sz {
+			sz = limit - total
+		}
+		if sz == 0 {
+			break
+		}
+		buf := make([]Value, sz)
+		for i := range buf {
+			buf[i] = in.tb.bytes[0]
+		}
+		r := in.call(fr, rd, []Value{s.v, buf}).(Tuple)
+		n := in.concreteInt(r[0], "Read count")
+		if n > 0 {
+			w := in.call(fr, wr, []Value{d.v, buf[:n]}).(Tuple)
+			if e := w[1].(Iface); e.t != nil {
+				return Tuple{in.int64v(total), e}
+			}
+			total += n
+		}
+		if e := r[1].(Iface); e.t != nil {
+			if in.branch(in.valueEq(e, in.ioErr("EOF"))) {
+				if limit >= 0 && total < limit {
+					return Tuple{in.int64v(total), e}
+				}
+				return Tuple{in.int64v(total), Iface{}}
+			}
+			return Tuple{in.int64v(total), e}
+		}
+	}
+	return Tuple{in.int64v(total), Iface{}}
 }
